@@ -67,6 +67,11 @@ func (fr *Frame) call0(instr ssa.Instruction, cc *ssa.CallCommon, st *State, rea
 // the named call (a call into a dependency whose behaviour this package relies on).
 func (fr *Frame) callYields(cc *ssa.CallCommon, r Val, st *State, reach string, pos token.Pos) {
 	ct := fr.contract
+	if ct == nil && fr.c.contract != nil {
+		// a helper without a contract of its own, executed inline on behalf of the function under verification: the
+		// function's `callsite ... yields` clauses cover the dependency calls made for it
+		ct = fr.c.contract
+	}
 	if ct == nil || len(ct.clauses("callyields")) == 0 {
 		return
 	}
@@ -134,7 +139,95 @@ func (fr *Frame) call0inner(instr ssa.Instruction, cc *ssa.CallCommon, st *State
 	if fv.Fn != nil {
 		return fr.callFunction(fv.Fn, args, resT, st, reach, pos)
 	}
+	if fnv := fr.writeOnceClosure(cc.Value); fnv != nil {
+		return fr.callFunction(fnv, args, resT, st, reach, pos)
+	}
 	return fr.callDynamic(cc, fv, args, resT, st, reach, pos)
+}
+
+// writeOnceClosure resolves a call through a captured variable (`writeLine(...)` inside a closure) when the variable
+// is a local of the enclosing function that is assigned exactly once in that function and in all its closures, with a
+// function literal: the callee is then that literal, whatever happened to the heap since. The closure value is taken
+// from the enclosing function's frame (the call is executed inline under it).
+func (fr *Frame) writeOnceClosure(v ssa.Value) *FnVal {
+	ld, ok := v.(*ssa.UnOp)
+	if !ok || ld.Op != token.MUL {
+		return nil
+	}
+	fvar, ok := ld.X.(*ssa.FreeVar)
+	if !ok || fr.fn.Parent() == nil {
+		return nil
+	}
+	parent := fr.fn.Parent()
+	idx := -1
+	for i, f := range fr.fn.FreeVars {
+		if f == fvar {
+			idx = i
+		}
+	}
+	if idx < 0 {
+		return nil
+	}
+	// the variable's cell in the enclosing function
+	var cell *ssa.Alloc
+	for _, b := range parent.Blocks {
+		for _, in := range b.Instrs {
+			if mc, ok := in.(*ssa.MakeClosure); ok && mc.Fn == fr.fn && idx < len(mc.Bindings) {
+				if a, ok := mc.Bindings[idx].(*ssa.Alloc); ok {
+					cell = a
+				}
+			}
+		}
+	}
+	if cell == nil {
+		return nil
+	}
+	// exactly one store to the cell in the enclosing function, of a function literal; none in its closures
+	var lit *ssa.MakeClosure
+	stores := 0
+	for _, b := range parent.Blocks {
+		for _, in := range b.Instrs {
+			if st, ok := in.(*ssa.Store); ok && st.Addr == cell {
+				stores++
+				lit, _ = st.Val.(*ssa.MakeClosure)
+			}
+		}
+	}
+	if stores != 1 || lit == nil {
+		return nil
+	}
+	for _, af := range parent.AnonFuncs {
+		// which free variable of af is the cell?
+		for _, b := range parent.Blocks {
+			for _, in := range b.Instrs {
+				mc, ok := in.(*ssa.MakeClosure)
+				if !ok || mc.Fn != af {
+					continue
+				}
+				for i, bv := range mc.Bindings {
+					if bv != cell || i >= len(af.FreeVars) {
+						continue
+					}
+					for _, ab := range af.Blocks {
+						for _, ain := range ab.Instrs {
+							if st, ok := ain.(*ssa.Store); ok && st.Addr == af.FreeVars[i] {
+								return nil
+							}
+						}
+					}
+				}
+			}
+		}
+	}
+	// the literal's value in the enclosing function's frame
+	for pf := fr.parent; pf != nil; pf = pf.parent {
+		if pf.fn == parent {
+			if lv, ok := pf.vals[lit]; ok && lv.Fn != nil {
+				return lv.Fn
+			}
+		}
+	}
+	return nil
 }
 
 func packResults(resT types.Type, rs []Val) Val {
@@ -490,6 +583,12 @@ func (fr *Frame) builtin(b *ssa.Builtin, cc *ssa.CallCommon, args []Val, resT ty
 			return Val{T: resT, Term: t}
 		}
 	case "recover":
+		if c.inReturnDefers > 0 {
+			// deferred functions run here because the function returns normally: no panic is in flight (executions in
+			// which a callee marked may_panic panics are not followed; listed as an assumption)
+			c.assumedExternal["recover() in a deferred function returns nil on normal return; executions in which a may_panic callee panics are not followed through the deferred functions"] = true
+			return Val{T: resT, Term: "0"}
+		}
 		return fr.havocVal(resT, "recover")
 	case "ssa:wrapnilchk":
 		return args[0]
@@ -661,6 +760,8 @@ func (fr *Frame) deferStmt(x *ssa.Defer, st *State, reach string) {
 
 func (fr *Frame) runDefers(st *State, reach string) {
 	c := fr.c
+	c.inReturnDefers++
+	defer func() { c.inReturnDefers-- }()
 	for i := len(fr.defers) - 1; i >= 0; i-- {
 		d := fr.defers[i]
 		// the deferred call runs iff its defer statement was executed on this path: cond is the
